@@ -13,9 +13,10 @@
 (*    Fail    : self._failed.append(...)                                   *)
 (* The queue orders entries by (type, counter); the counter only grows, so *)
 (* the queue is one FIFO per type, lowest type first.                      *)
-(* Register(d): discovery.register_computation fires the one-shot          *)
-(* callbacks, Messaging._on_computation_registration re-posts the failed   *)
-(* messages for d in list order.  Shutdown = Agent.clean_shutdown().        *)
+(* RegData(d) / RegFire(d): discovery.register_computation first makes d   *)
+(* known, then fires the one-shot callbacks:                               *)
+(* Messaging._on_computation_registration re-posts the failed messages for *)
+(* d in list order.  Shutdown = Agent.clean_shutdown().                     *)
 (* The agent loop (Agent._run) is two steps: a poll of the queue (a        *)
 (* message is handled, or the poll times out: apc = "check") and, after a  *)
 (* timed-out poll, the test of the shutdown flag.  Messages can be posted  *)
@@ -27,10 +28,11 @@ CONSTANTS Posters,     \* set of thread ids (1, 2, ...)
           Scripts,     \* [Posters -> Seq([dest, ty])]
           Dests, LateDests, Types,
           Recheck,     \* TRUE: post_msg looks the destination up again after deferring a message (the repaired code)
+          Ordered,     \* TRUE: a post whose destination is known queues behind the messages still deferred for it (repaired)
           Repoll       \* TRUE: after a timed-out poll, a shutdown request makes the loop poll again before it exits (repaired)
 
-VARIABLES pc, idx, known, cbs, failed, q, shut, exited, apc, handled, dropped, beforeShut, minOk, act
-impl == <<pc, idx, known, cbs, failed, q, shut, exited, apc>>
+VARIABLES pc, idx, known, cbs, failed, q, shut, exited, apc, reg, handled, dropped, beforeShut, minOk, act
+impl == <<pc, idx, known, cbs, failed, q, shut, exited, apc, reg>>
 hist == <<handled, dropped, beforeShut, minOk>>
 vars == <<impl, hist, act>>
 
@@ -42,6 +44,7 @@ Cur(p) == Mid(p, idx[p])
 Init == /\ pc = [p \in Posters |-> "idle"] /\ idx = [p \in Posters |-> 1]
         /\ known = Dests \ LateDests /\ cbs = {} /\ failed = <<>>
         /\ q = [t \in Types |-> <<>>] /\ shut = FALSE /\ exited = FALSE /\ apc = "poll"
+        /\ reg = [d \in LateDests |-> "no"]
         /\ handled = <<>> /\ dropped = {} /\ beforeShut = {} /\ minOk = TRUE
         /\ act = [n |-> "init"]
 
@@ -53,27 +56,39 @@ Advance(p) == /\ pc' = [pc EXCEPT ![p] = "idle"] /\ idx' = [idx EXCEPT ![p] = @ 
 
 Begin(p) == /\ pc[p] = "idle" /\ ~Done(p)
             /\ IF shut THEN /\ dropped' = dropped \cup {Cur(p)} /\ Advance(p)
-                       ELSE /\ pc' = [pc EXCEPT ![p] = "lookup"] /\ UNCHANGED <<idx, dropped>>
+                       ELSE /\ pc' = [pc EXCEPT ![p] = "lookup"] /\ UNCHANGED <<idx, dropped, reg>>
             /\ act' = [n |-> "begin", p |-> p, m |-> Cur(p)]
-            /\ UNCHANGED <<known, cbs, failed, q, shut, exited, apc, handled, beforeShut, minOk>>
+            /\ UNCHANGED <<known, cbs, failed, q, shut, exited, apc, handled, beforeShut, minOk, reg>>
 Lookup(p) == /\ pc[p] = "lookup"
              /\ pc' = [pc EXCEPT ![p] = IF Msg(Cur(p)).dest \in known THEN "put" ELSE "sub"]
              /\ act' = [n |-> "lookup", p |-> p, m |-> Cur(p)]
-             /\ UNCHANGED <<idx, known, cbs, failed, q, shut, exited, apc, hist>>
+             /\ UNCHANGED <<idx, known, cbs, failed, q, shut, exited, apc, hist, reg>>
+\* the failed messages for destination d, in list order, and the others
+ForDest(d) == SelectSeq(failed, LAMBDA m : Msg(m).dest = d)
+NotForDest(d) == SelectSeq(failed, LAMBDA m : Msg(m).dest # d)
+\* the destination is known.  Repaired code (Ordered): if messages are still deferred for it (its registration has recorded it but
+\* not fired the callbacks yet), this message goes behind them and they are all posted now, in order, under the lock of the
+\* deferred list (each through post_msg: after a shutdown request they are dropped)
 Put(p) == /\ pc[p] = "put"
-          /\ q' = Enqueue(q, Cur(p))
-          /\ beforeShut' = IF shut THEN beforeShut ELSE beforeShut \cup {Cur(p)}
+          /\ LET d == Msg(Cur(p)).dest
+                 mine == Append(ForDest(d), Cur(p)) IN
+             IF Ordered /\ ForDest(d) # <<>>
+             THEN /\ failed' = NotForDest(d)
+                  /\ IF shut THEN /\ dropped' = dropped \cup {m \in AllMids : InSeq(mine, m)} /\ UNCHANGED <<q, beforeShut>>
+                             ELSE /\ q' = EnqueueAll(q, mine)
+                                  /\ beforeShut' = beforeShut \cup {m \in AllMids : InSeq(mine, m)}
+                                  /\ dropped' = dropped
+             ELSE /\ q' = Enqueue(q, Cur(p))
+                  /\ beforeShut' = IF shut THEN beforeShut ELSE beforeShut \cup {Cur(p)}
+                  /\ UNCHANGED <<failed, dropped>>
           /\ Advance(p)
           /\ act' = [n |-> "put", p |-> p, m |-> Cur(p)]
-          /\ UNCHANGED <<known, cbs, failed, shut, exited, apc, handled, dropped, minOk>>
+          /\ UNCHANGED <<known, cbs, shut, exited, apc, handled, minOk, reg>>
 Sub(p) == /\ pc[p] = "sub"
           /\ cbs' = cbs \cup {Msg(Cur(p)).dest}
           /\ pc' = [pc EXCEPT ![p] = "fail"]
           /\ act' = [n |-> "sub", p |-> p, m |-> Cur(p)]
-          /\ UNCHANGED <<idx, known, failed, q, shut, exited, apc, hist>>
-\* the failed messages for destination d, in list order, and the others
-ForDest(d) == SelectSeq(failed, LAMBDA m : Msg(m).dest = d)
-NotForDest(d) == SelectSeq(failed, LAMBDA m : Msg(m).dest # d)
+          /\ UNCHANGED <<idx, known, failed, q, shut, exited, apc, hist, reg>>
 Fail(p) == /\ pc[p] = "fail"
            /\ LET d == Msg(Cur(p)).dest
                   f2 == Append(failed, Cur(p))
@@ -83,18 +98,27 @@ Fail(p) == /\ pc[p] = "fail"
                    \* (after a shutdown the re-posts are dropped by post_msg, as in Register)
                    /\ failed' = SelectSeq(f2, LAMBDA m : Msg(m).dest # d)
                    /\ IF shut THEN /\ dropped' = dropped \cup {m \in AllMids : InSeq(mine, m)}
-                                    /\ UNCHANGED <<q, beforeShut>>
+                                    /\ UNCHANGED <<q, beforeShut, reg>>
                               ELSE /\ q' = EnqueueAll(q, mine)
                                    /\ beforeShut' = beforeShut \cup {m \in AllMids : InSeq(mine, m)}
                                    /\ dropped' = dropped
-              ELSE /\ failed' = f2 /\ UNCHANGED <<q, beforeShut, dropped>>
+              ELSE /\ failed' = f2 /\ UNCHANGED <<q, beforeShut, dropped, reg>>
            /\ Advance(p)
            /\ act' = [n |-> "fail", p |-> p, m |-> Cur(p)]
-           /\ UNCHANGED <<known, cbs, shut, exited, apc, handled, minOk>>
+           /\ UNCHANGED <<known, cbs, shut, exited, apc, handled, minOk, reg>>
 
-\* a late computation is registered on the agent (deployment): callbacks fire only if some post subscribed before
-Register(d) == /\ d \in LateDests \ known
-               /\ known' = known \cup {d}
+\* a late computation is registered on the agent (deployment).  Discovery.register_computation is two steps for the other
+\* threads: (1) the computation becomes known (post_msg's lookup succeeds from now on), (2) the one-shot callbacks fire and
+\* Messaging._on_computation_registration re-posts the deferred messages for it, in list order (only if some post subscribed)
+RegData(d) ==
+              /\ d \in LateDests /\ reg[d] = "no"
+              /\ known' = known \cup {d}
+              /\ reg' = [reg EXCEPT ![d] = "data"]
+              /\ act' = [n |-> "regdata", d |-> d]
+              /\ UNCHANGED <<pc, idx, cbs, failed, q, shut, exited, apc, hist>>
+RegFire(d) ==
+               /\ d \in LateDests /\ reg[d] = "data"
+               /\ reg' = [reg EXCEPT ![d] = "done"]
                /\ IF d \in cbs /\ ~shut
                   THEN /\ q' = EnqueueAll(q, ForDest(d)) /\ failed' = NotForDest(d)
                        /\ beforeShut' = beforeShut \cup {m \in AllMids : InSeq(ForDest(d), m)}
@@ -104,8 +128,8 @@ Register(d) == /\ d \in LateDests \ known
                   ELSE UNCHANGED <<q, failed, beforeShut>>
                /\ cbs' = cbs \ {d}
                /\ dropped' = IF d \in cbs /\ shut THEN dropped \cup {m \in AllMids : InSeq(ForDest(d), m)} ELSE dropped
-               /\ act' = [n |-> "register", d |-> d]
-               /\ UNCHANGED <<pc, idx, shut, exited, apc, handled, minOk>>
+               /\ act' = [n |-> "regfire", d |-> d]
+               /\ UNCHANGED <<pc, idx, known, shut, exited, apc, handled, minOk>>
 
 QueuedTypes == {t \in Types : q[t] # <<>>}
 MinType == CHOOSE t \in QueuedTypes : \A u \in QueuedTypes : t <= u
@@ -120,29 +144,29 @@ AgentNext == /\ ~exited /\ QueuedTypes # {}
              /\ \/ apc = "poll"
                 \/ (apc = "check" /\ shut /\ Repoll)       \* repaired loop: second poll after a shutdown request
              /\ Fetch /\ apc' = "poll"
-             /\ UNCHANGED <<pc, idx, known, cbs, failed, shut, exited, dropped, beforeShut>>
+             /\ UNCHANGED <<pc, idx, known, cbs, failed, shut, exited, dropped, beforeShut, reg>>
 \* next_msg(0.05) times out: the loop is now between the poll and the test of the shutdown flag
 AgentIdle == /\ ~exited /\ apc = "poll" /\ QueuedTypes = {}
              /\ apc' = "check"
              /\ act' = [n |-> "idle"]
-             /\ UNCHANGED <<pc, idx, known, cbs, failed, q, shut, exited, hist>>
+             /\ UNCHANGED <<pc, idx, known, cbs, failed, q, shut, exited, hist, reg>>
 \* no shutdown requested: next iteration
 AgentResume == /\ ~exited /\ apc = "check" /\ ~shut
                /\ apc' = "poll"
                /\ act' = [n |-> "resume"]
-               /\ UNCHANGED <<pc, idx, known, cbs, failed, q, shut, exited, hist>>
+               /\ UNCHANGED <<pc, idx, known, cbs, failed, q, shut, exited, hist, reg>>
 Shutdown == /\ ~shut /\ shut' = TRUE
             /\ act' = [n |-> "shutdown"]
-            /\ UNCHANGED <<pc, idx, known, cbs, failed, q, exited, apc, hist>>
+            /\ UNCHANGED <<pc, idx, known, cbs, failed, q, exited, apc, hist, reg>>
 \* shutdown requested: the loop exits - without Repoll even if messages were queued since the poll timed out
 LoopExit == /\ shut /\ ~exited /\ apc = "check"
             /\ (Repoll => QueuedTypes = {})
             /\ exited' = TRUE
             /\ act' = [n |-> "exit"]
-            /\ UNCHANGED <<pc, idx, known, cbs, failed, q, shut, apc, hist>>
+            /\ UNCHANGED <<pc, idx, known, cbs, failed, q, shut, apc, hist, reg>>
 
 Next == (\E p \in Posters : Begin(p) \/ Lookup(p) \/ Put(p) \/ Sub(p) \/ Fail(p))
-        \/ (\E d \in LateDests : Register(d)) \/ AgentNext \/ AgentIdle \/ AgentResume \/ Shutdown \/ LoopExit
+        \/ (\E d \in LateDests : RegData(d) \/ RegFire(d)) \/ AgentNext \/ AgentIdle \/ AgentResume \/ Shutdown \/ LoopExit
 Spec == Init /\ [][Next]_vars
 
 \* ---- the property (C18) -------------------------------------------------
@@ -163,7 +187,7 @@ NothingLost == \A m \in AllMids : Posted(m) => (InSeq(handled, m) \/ InQueue(m) 
 \* deferred messages are delivered once their destination registers: when nothing is in progress, no message is left deferred
 \* for a registered computation
 AllIdle == \A p \in Posters : pc[p] = "idle"
-NoStuckDeferred == (AllIdle /\ ~shut) => \A i \in 1..Len(failed) : Msg(failed[i]).dest \notin known
+NoStuckDeferred == (AllIdle /\ ~shut) => \A i \in 1..Len(failed) : (Msg(failed[i]).dest \notin known \/ (Msg(failed[i]).dest \in LateDests /\ reg[Msg(failed[i]).dest] = "data"))
 \* clean shutdown: when the loop exits, everything queued before the shutdown has been handled
 ShutdownDrains == exited => \A m \in beforeShut : InSeq(handled, m)
 
@@ -174,7 +198,7 @@ QSeqOf(T) == IF T = {} THEN <<>> ELSE LET t == CHOOSE x \in T : \A u \in T : x <
 \* (injective on the implementation variables: the replay walks the graph of projections)
 Proj == [pc |-> [p \in Posters |-> pc[p]], idx |-> [p \in Posters |-> idx[p]], known |-> known, cbs |-> cbs,
          failed |-> failed, queue |-> QSeqOf(Types),
-         handled |-> handled, shut |-> shut, exited |-> exited, apc |-> apc]
+         handled |-> handled, shut |-> shut, exited |-> exited, apc |-> apc, reg |-> reg]
 Edge == PrintT(<<"EDGE", ToJson(Proj), ToJson(act'), ToJson(Proj')>>)
 View == <<impl, hist>>
 ====
